@@ -74,7 +74,7 @@ class Case:
     __slots__ = ("wi", "world", "obj", "mut", "side", "key")
 
 
-def make_cases(ctx, nworlds, full_every):
+def make_cases(ctx, nworlds, full_every, sample):
     worlds, cases = [], []
     for wi in range(nworlds):
         rng = __import__("random").Random(ctx.rng.getrandbits(64))
@@ -86,7 +86,7 @@ def make_cases(ctx, nworlds, full_every):
             pick = [o for o in objs if o.kind == "m"]
             rest = [o for o in objs if o.kind != "m"]
             rng.shuffle(rest)
-            objs = pick + rest[:6]
+            objs = pick + rest[:sample]
         for o in objs:
             c = Case()
             c.wi, c.world, c.obj, c.mut, c.side = wi, w, o, None, None
@@ -146,8 +146,9 @@ def run(ctx):
     mdl = vf.ocaml_driver("clone")
     fx = dict(zip(FLAG_NAMES, [ch == "1" for ch in FLAGS]))
 
-    nworlds = 1500 if quick else 30000
-    worlds, cases = make_cases(ctx, nworlds, 5 if quick else 3)
+    nworlds = int(os.environ.get("C11_WORLDS", 1500 if quick else 30000))      # C11_WORLDS: development override
+    full_every, sample = (5, 6) if quick else (10, 3)
+    worlds, cases = make_cases(ctx, nworlds, full_every, sample)
     ctx.log("worlds=%d clone cases=%d" % (len(worlds), len(cases)))
     cout = shards(ctx, drv, "cpp", [cpp_line(c) for c in cases])
     mout = shards(ctx, mdl, "ml", [ml_line(c) for c in cases])
@@ -246,7 +247,9 @@ def run(ctx):
         fl = cf[3].split()
         if fl[1] == "p0":
             probs.append("clone has a parent")
-        if o.kind == "m" and not ext and fl[2] != "w1":
+        # (Variable::equivalenceConnectionId, which the Printer uses, picks the id of an address-dependent pair when the
+        #  connection ids between two components are not uniform: no Printer comparison for such worlds)
+        if o.kind == "m" and not ext and w.conn_uniform and fl[2] != "w1":
             probs.append("Printer output differs")
         new = set(lab for lab, _, _ in W.walk(csx))
         shared = sorted(x for x in new if not x.startswith("$"))
@@ -291,10 +294,13 @@ def run(ctx):
     # ------------------------------------------------------------------ single mutations
     mrng = __import__("random").Random(ctx.rng.getrandbits(64))
     mcases = []
-    per = 2
     for idx, c in enumerate(cases):
-        if idx not in clone_info or c.wi % (5 if quick else 3) != 0 and c.obj.kind != "m":
+        if idx not in clone_info:
             continue
+        if c.obj.kind == "m":
+            per = 2 if c.wi % 2 == 0 else 0
+        else:
+            per = 1 if c.wi % full_every == 0 else 0
         osx, m_can = clone_info[idx]
         msx = W.parse(m_can)
         onodes = W.walk(osx)
@@ -353,9 +359,9 @@ def run(ctx):
                        "with by-name / linked / foreign Units objects, resets with and without order pointing at own / other / parent-less "
                        "variables, shared and private import sources, encapsulation ids, equivalences with ids between siblings, parent and "
                        "child, across models and to parent-less variables, plus lone components, units, variables, resets); every object of "
-                       "every %d-th world and all models + 6 random objects of the others are cloned; then single API mutations of original "
+                       "every %d-th world and all models + %d random objects of the others are cloned; then single API mutations of original "
                        "or clone. distinct = by sha1 of (identity dump of the cloned object [+ mutation]); non-trivial = the clone holds at "
-                       "least 2 objects (clone cases) / the mutation was applied to an object of the pair (mutation cases)" % (5 if quick else 3))
+                       "least 2 objects (clone cases) / the mutation was applied to an object of the pair (mutation cases)" % (full_every, sample))
     ctx.cov["samples"] = samples or [{"note": "no large sample this run"}]
     hist["mutations"] = mhist
     ctx.cov["input_distribution"] = hist
